@@ -1,7 +1,7 @@
 """C13 — pointer heap and timer queue (harness/h_heap.c)."""
 
 TARGETS = {
-    "h_heap": dict(harness=["h_heap.c"], engine=["vf.c"], shims=["shim_ptrheap.c", "shim_timerqueue.c"],
+    "h_heap": dict(repo_opt="-O0", harness=["h_heap.c"], engine=["vf.c"], shims=["shim_ptrheap.c", "shim_timerqueue.c"],
                    repo=["datastruct/elasticarray.c"], wrap=["malloc", "calloc", "realloc"]),
 }
 
@@ -11,13 +11,17 @@ CHECKS = {
         deep=True,      # the thorough tier adds --deep (larger searches, see bounds)
         level="model_checking",
         runs=[dict(name="heap", target="h_heap", args=[], quick=[], thorough=[])],
-        deadline=dict(quick=150, thorough=600),
+        deadline=dict(quick=150, thorough=900),
         bounds=dict(
             quick="heap: keys {0,1,2}, <=12 elements, ptrheap_create from every array of <=5 keys, all of add/getmin/deletemin/"
                   "delete(handle)/increase(handle)/decrease(handle)/increasemin/add-with-dead-allocator-then-retry from every state (with and without record-cookie "
                   "callback); timer queue: times {(0,0),(0,5),(2^31+100,0)}, <=12 entries, add/delete/increase/getmin/getptr(t) for every t; "
                   "every search to its fixed point (operation histories of unbounded length)",
-            thorough="as quick with <=14 elements and create from <=6 keys, plus 4 keys / 4 times with <=11 elements (create from <=5 keys)"),
+            thorough="as quick with <=14 elements and create from <=6 keys, plus 4 keys / 4 times with <=11 elements (create from <=5 keys). "
+                     "The thorough tier (--deep) adds eight larger searches with the same operations and oracle, each to its fixed point: "
+                     "heap with callback: keys {0,1,2} <=17 elements (create from <=7 keys), keys {0..3} <=13 elements, keys {0..4} <=11 elements "
+                     "(create from <=5 keys); heap without callback: keys {0,1,2} <=20 elements, keys {0..3} <=15, keys {0..4} <=12; "
+                     "timer queue: 3 times <=17 entries, 4 times <=13 entries (>=16 elements: fifth array level, sift paths of depth 4)"),
         explanation="states = key sequences in heap-array order reachable from init/create; transitions = single real API calls on a "
                     "restored real heap, each compared with the multiset model; fixed point reached when coverage.exhaustive is true",
         assumptions=["element identities are interchangeable (state = key sequence in array order)",
@@ -28,14 +32,15 @@ CHECKS = {
 
 CLAIMS = {
     "C13": dict(
-        text="Every operation history of any length on heaps/timer queues of at most 12 (quick) / 14 (thorough) elements with duplicate "
+        text="Every operation history of any length on heaps/timer queues of at most 14 (quick tier) / 17 (thorough tier; 20 without callback) elements with duplicate "
              "keys is covered by an explicit-state search to a fixed point over the real ptrheap.c/timerqueue.c: in every reachable "
              "state and after every single real API call getmin is a least element of the model multiset, the heap array holds exactly "
              "the live elements, the position last reported through the record-cookie callback is the slot holding that element (so "
              "delete/increase/decrease by handle hit the intended element), getptr releases a least due entry with exactly its stored "
              "pointer and nothing that is later than the query time.",
         note="Trusted: the multiset model and restore-by-placement in harness/h_heap.c, the read-only shim accessors, clang ASan/UBSan. "
-             "Bounded: <=14 elements (every heap shape and sift path of depth <=3), 3-4 distinct keys; 'thousands of entries' is not "
+             "Bounded: <=14 elements (every heap shape and sift path of depth <=3) with 3-4 distinct keys in the quick tier; <=17 elements with 3 keys "
+             "(<=20 without callback; sift paths of depth 4), <=13 with 4 keys, <=11 with 5 keys in the thorough tier; 'thousands of entries' is not "
              "covered; allocation failure is C14.",
         technique="explicit-state model checking (BFS to a fixed point) of the real heap code against a multiset model", engine="es"),
 }
